@@ -1209,9 +1209,41 @@ class ExtMixin(object):
         return Num(-self.num(args[0], node), getattr(args[0], "inexact", False))
 
     def x_itertools_repeat(self, args, kwargs, node, env):
+        if len(args) == 2 and not kwargs or (len(args) == 1 and set(kwargs) == {"times"}):
+            # repeat(x, n): n copies of x
+            n = self.num(args[1] if len(args) == 2 else kwargs["times"], node)
+            c = n.as_const()
+            if c is not None and c.denominator == 1 and c <= 16:
+                return ListV([args[0]] * max(0, int(c)), "list")
+            var = self.fresh_sym("k")
+            return SeqV("family", var=var, lo=ep.const(0), hi=n, elem=args[0])
         if kwargs or len(args) != 1:
-            self.err(node, "itertools.repeat with a count")
+            self.err(node, "itertools.repeat arguments")
         return PyObjV(_Repeat(args[0]))
+
+    def x_itertools_groupby(self, args, kwargs, node, env):
+        """itertools.groupby(xs, key): runs of ADJACENT items with equal keys (only adjacent ones - the documented behaviour),
+        for a list of known items whose keys compare definitely; each group is delivered as a list"""
+        key = kwargs.get("key", args[1] if len(args) > 1 else None)
+        if len(args) not in (1, 2) or set(kwargs) - {"key"}:
+            self.err(node, "itertools.groupby arguments")
+        seq = self.as_iterable(args[0], node)
+        if not (isinstance(seq, ListV) and not getattr(seq, "tail", None)):
+            self.err(node, "itertools.groupby over a symbolic sequence")
+        groups = []
+        for it in seq.items:
+            k = it if key is None or (isinstance(key, Const) and key.v is None) else self.call(key, [it], {}, node, env)
+            if groups:
+                same = self.equals(groups[-1][0], k, node)
+                if isinstance(same, Cond):
+                    same = self.assume(same)
+                if not isinstance(same, bool):
+                    self.err(node, "itertools.groupby: equality of neighbouring keys %r and %r is not decided" % (groups[-1][0], k))
+                if same:
+                    groups[-1][1].append(it)
+                    continue
+            groups.append((k, [it]))
+        return ListV([ListV([k, ListV(items, "list")], "tuple") for k, items in groups], "list")
 
     def x_itertools_product(self, args, kwargs, node, env):
         import itertools as _it
